@@ -61,7 +61,7 @@ Qed.
 
 (* resumed fit, store_history = True, history lists created after the sanity evaluation: the constructor raises *)
 Lemma constructor_refuted :
-  exists (m : @model Q) L lp fl r h pbuf, construct numQ buggy_impl m L lp fl r true (fresh h) pbuf = None.
+  exists (m : @model Q) L lp fl r h pbuf, construct_via_call numQ buggy_impl m L lp fl r true (fresh h) pbuf = None.
 Proof. exists m1, L1, lp1, like_chi2_hist, (-1), [[1]], 0%nat. vm_compute. reflexivity. Qed.
 
 (* --- non-vacuity --- *)
@@ -87,8 +87,12 @@ Proof. split; vm_compute; reflexivity. Qed.
 Example repaired_history_survives_overwrite :
   view (fst (run numQ repaired_impl m1 L1 lp1 post_chi2_hist (-1) false (fresh [[1]]) [OCall 0%nat; OWrite 0%nat [5]])) = [([1], 1)].
 Proof. vm_compute. reflexivity. Qed.
+Example constructor_direct_leaves_history_empty :
+  option_map (view (V := Q)) (construct numQ repaired_impl m1 L1 lp1 like_chi2_hist (-1) false false (fresh [[1]]) 0%nat) = Some [] /\
+  construct numQ repaired_impl m1 L1 lp1 like_chi2_hist (-1) false false (fresh [[11]]) 0%nat = None.
+Proof. split; vm_compute; reflexivity. Qed.
 Example constructor_early_records_sanity_evaluation :
-  option_map (view (V := Q)) (construct numQ repaired_impl m1 L1 lp1 like_chi2_hist (-1) false (fresh [[1]]) 0%nat) = Some [([1], 1)].
+  option_map (view (V := Q)) (construct_via_call numQ repaired_impl m1 L1 lp1 like_chi2_hist (-1) false (fresh [[1]]) 0%nat) = Some [([1], 1)].
 Proof. vm_compute. reflexivity. Qed.
 Example pyswarms_batch_value :
   snd (run numQ buggy_impl m1 L1 lp1 post_chi2_hist (-1) true (fresh [[1]; [11]]) [OBatch [0%nat; 1%nat; 0%nat]]) =
